@@ -124,7 +124,8 @@ func c10Out(pl, sc int) []byte {
 	return buf[:pl]
 }
 
-func c10Seal(n, pl, sc int) {
+func c10Seal(n, pl, sc int, abstractSalsa bool) {
+	c10AbstractSalsa = abstractSalsa
 	nonce := c10Arr24(verifrt.Bytes(24))
 	key := c10Arr32(verifrt.Bytes(32))
 	n0, k0 := nonce, key
@@ -172,21 +173,30 @@ func c10Seal(n, pl, sc int) {
 // {0,1,31,32,33,64,95,96,97,130} (around the 32-byte first-block split and the 64-byte block
 // boundaries of the continuation stream), out = nil / 3-byte prefix without / with enough spare
 // capacity: output = prefix || tag || c of the NaCl definition; Open(Seal(m)) = m.
+// Salsa is abstracted to its C09 characterisation (uninterpreted core per block) so that a
+// deviation shows up as a solver-easy UF disequality instead of a 20-round ARX one.
 func Verif_C10_Seal() {
 	n := []int{0, 1, 31, 32, 33, 64, 95, 96, 97, 130}[verifrt.Choose(0, 9)]
 	switch verifrt.Choose(0, 2) {
 	case 0:
-		c10Seal(n, 0, 0)
+		c10Seal(n, 0, 0, true)
 	case 1:
-		c10Seal(n, 3, 5)
+		c10Seal(n, 3, 5, true)
 	default:
-		c10Seal(n, 3, 16+n+2)
+		c10Seal(n, 3, 16+n+2, true)
 	}
 }
 
-// Verif_C10_SealT: every message length 0..200, out = 2-byte prefix with no spare capacity.
+// Verif_C10_SealReal: the same with the REAL HSalsa20 / Salsa20 code on both sides (terms fold),
+// lengths {0, 33, 97}, out = nil.
+func Verif_C10_SealReal() {
+	c10Seal([]int{0, 33, 97}[verifrt.Choose(0, 2)], 0, 0, false)
+}
+
+// Verif_C10_SealT: every message length 0..200, out = 2-byte prefix with no spare capacity
+// (abstract Salsa).
 func Verif_C10_SealT() {
-	c10Seal(verifrt.Choose(0, 200), 2, 0)
+	c10Seal(verifrt.Choose(0, 200), 2, 0, true)
 }
 
 func c10Open(bl, pl, sc int) {
